@@ -241,6 +241,12 @@ impl Expander {
                 } else if let Some((skip, num)) = parse_decimal(tail, 0) {
                     f(Step::GroupNum(num))?;
                     skip
+                } else if tail.starts_with(|c: char| c.is_ascii_digit()) {
+                    // A number that is too large to be parsed is not a valid group index. Treat
+                    // it like any other reference to a group that does not exist.
+                    let skip = tail.bytes().take_while(u8::is_ascii_digit).count();
+                    f(Step::GroupName(&tail[..skip]))?;
+                    skip
                 } else {
                     f(Step::Error)?;
                     f(Step::Char(self.sub_char))?;
